@@ -82,6 +82,11 @@ pub fn plan(tier: &str, seed: u64) -> Vec<Batch> {
             for i in 0..fault_layouts(&uni).len() as u64 {
                 v.push(Batch { check: "C06".into(), phase: "fault-enum".into(), uni: uni.clone(), seed, lo: i, hi: i + 1, fresh: false, tier: tier.into(), extra: Value::Null });
             }
+            // a private (masked) handle that needs a temporary unmasked handle in the middle of the
+            // lookup: one fault in the mount-API calls of that step x one racing mount at every window
+            for i in 0..fault_race_scenarios().len() as u64 {
+                v.push(Batch { check: "C06".into(), phase: "fault-race".into(), uni: uni.clone(), seed, lo: i, hi: i + 1, fresh: false, tier: tier.into(), extra: Value::Null });
+            }
             v.push(Batch { check: "C06".into(), phase: "canonical".into(), uni: uni.clone(), seed, lo: 0, hi: canonical_cases(&uni).len() as u64, fresh: false, tier: tier.into(), extra: Value::Null });
             let nm = race_matrix().len() as u64;
             let mut lo = 0;
@@ -188,6 +193,71 @@ pub fn fault_layouts(uni: &UniCfg) -> Vec<Case> {
         v.push(mk(vec![bind("/proc/1/status", "/proc/self/status", false)], ct, Op::ProcReadlink { handle: h, base: Base::SelfP, path: "exe".into(), bufsz: 256 }));
     }
     v
+}
+
+/// (global handle?, lookup path, follow, mount source, mount target, on the dentry itself)
+pub fn fault_race_scenarios() -> Vec<(bool, &'static str, bool, &'static str, &'static str, bool)> {
+    let mut v = Vec::new();
+    for global in [false, true] {
+        v.push((global, "mounts", true, "/mnt/w/outside/secret", "/proc/mounts", true));
+        v.push((global, "mounts", true, "/proc/version", "/proc/mounts", true));
+        v.push((global, "cpuinfo", false, "/mnt/w/outside/secret", "/proc/cpuinfo", false));
+        v.push((global, "net", true, "/mnt/w/outside", "/proc/net", true));
+        v.push((global, "sys/kernel/ostype", false, "/proc/version", "/proc/sys/kernel/ostype", false));
+    }
+    v
+}
+
+fn run_fault_race(u: &mut Universe, b: &Batch, idx: u64, st: &mut Stats) -> bool {
+    let (global, path, follow, src, dst, nofollow) = fault_race_scenarios()[idx as usize];
+    let mk = |script: Vec<Dec>| {
+        let mut c = Case::new("C06", "fault-race", b.uni.clone());
+        let mut ops = Vec::new();
+        let handle = if global {
+            None
+        } else {
+            ops.push(OpSpec::new(Op::ProcNew { ctor: ProcCtor::New, store: 0 }));
+            Some(0)
+        };
+        let mut o = OpSpec::new(Op::ProcOpen { handle, base: Base::Root, path: path.into(), flags: libc::O_RDONLY | libc::O_NONBLOCK, follow });
+        if global {
+            o = o.c();
+        }
+        ops.push(o);
+        c.world = Some(warm_world_with_outside());
+        c.jobs = vec![ops];
+        c.plan.script = script;
+        c.extra = json!({"ctor": if global { "global" } else { "new" }, "ctor_before_mounts": true});
+        c
+    };
+    let base_case = mk(vec![]);
+    let target = base_case.jobs[0].len() - 1;
+    let mut h0 = H::new();
+    let out0 = run_case(u, &base_case, &mut h0, false);
+    if out0.harness_error.is_some() || u.poisoned {
+        return !u.poisoned;
+    }
+    let lib: Vec<(usize, i64)> = out0.trace.iter().filter(|e| e.lib && e.op == Some(target) && e.nr != crate::seam::HYPERCALL_NR && e.nr != libc::SYS_futex).map(|e| (e.step, e.nr)).collect();
+    let api: Vec<(usize, i64)> = lib.iter().copied().filter(|(_, nr)| matches!(*nr, libc::SYS_fsopen | libc::SYS_fsconfig | libc::SYS_fsmount | libc::SYS_open_tree)).collect();
+    st.count("fault_race.mount_api_sites", api.len() as u64);
+    for (fs, _) in &api {
+        for e in [libc::EPERM, libc::ENOMEM] {
+            for (w, _) in lib.iter().filter(|(w, _)| w > fs) {
+                let case = mk(vec![
+                    Dec { step: *fs, fault: Some(crate::sup::Fault::Errno(e)), ..Default::default() },
+                    Dec { step: *w, attack: vec![Mutation::MountOn { src: src.into(), dst: dst.into(), nofollow }], ..Default::default() },
+                ]);
+                if !run_pair(u, &case, st, false) {
+                    return false;
+                }
+                st.count("fault_race.pairs", 1);
+                if u.poisoned {
+                    return false;
+                }
+            }
+        }
+    }
+    true
 }
 
 fn run_fault_enum(u: &mut Universe, b: &Batch, idx: u64, st: &mut Stats) -> bool {
@@ -697,6 +767,11 @@ pub fn run(u: &mut Universe, b: &Batch, st: &mut Stats) {
             }
             "fault-enum" => {
                 if !run_fault_enum(u, b, idx, st) {
+                    return;
+                }
+            }
+            "fault-race" => {
+                if !run_fault_race(u, b, idx, st) {
                     return;
                 }
             }
